@@ -243,7 +243,7 @@ func c14Body(c *vk.Ctx, cs c14Case) {
 }
 
 func TestVerifC14Groups(t *testing.T) {
-	u := vk.Unit{Property: "C14", Name: "c14.groups", Quick: 160, Thorough: 5000,
+	u := vk.Unit{Property: "C14", Name: "c14.groups", Quick: 360, Thorough: 5000,
 		Rule: "groups of 2..6 distinct bundles with identical source and creation time (same millisecond, or epoch time + age block) submitted sequentially through Core.SendBundle, through an application agent and the agent manager, or concurrently from 2..6 goroutines; with no peer, another peer, or the destination peer connected; followed by an optional restart, a second group, a retry tick and the appearance of the destination; oracle on the bytes seen by the scripted peers and on the store after every step: distinct payloads <=> distinct IDs, one ID per payload for ever, every bundle not yet handed to its destination is filed as pending and loads its own payload under the ID it was transmitted with, finally every bundle reaches the destination; non-trivial = group of >= 2 that had to wait in the store; distinct by case hash"}
 	vk.Check(t, u, func(t *rapid.T) c14Case {
 		return c14Case{Algo: rapid.SampledFrom([]string{"epidemic", "epidemic", "spray", "prophet"}).Draw(t, "algo"), N: rapid.IntRange(2, 6).Draw(t, "n"),
